@@ -65,6 +65,11 @@ func c02RandomOp(s *Sess, u univ, rng *Rng) {
 			m = []KV{{"X-Amz-Meta-Tag", string(rune('a' + rng.Intn(3)))}}
 		case 2:
 			m = []KV{{"Content-Type", "text/x-" + string(rune('a'+rng.Intn(3)))}, {"X-Amz-Meta-Other", "o"}}
+		case 3:
+			if rng.Bool() {
+				// a header sent with an empty value is sent: it replaces what the key carried before
+				m = []KV{{"X-Amz-Meta-Tag", ""}, {"X-Amz-Meta-Other", []string{"", "p"}[rng.Intn(2)]}}
+			}
 		}
 		s.Put(b, k, u.bodies[rng.Intn(len(u.bodies))], m)
 	case w < 57:
